@@ -2,6 +2,8 @@
 import copy
 import itertools
 
+import pandas as pd
+
 from hypothesis import strategies as st
 
 from .. import gen
@@ -16,8 +18,9 @@ RULE = ("(a) all 120 permutations of the five required columns on a fixed 2-seas
         "combined with a rotating index / extra-column variant); (b) Hypothesis: generated configurations (calendar and thermal "
         "crops, 1-2 seasons) x generated re-presentations of the weather table: column permutation, 0-3 unrelated columns "
         "(numeric, integer, string, datetime, numeric with missing values, objects with None) at any position, re-indexing (shifted integers, dates, reversed labels, string "
-        "labels, REPEATED labels as after concatenating yearly tables, one constant label; rows stay in date order), extra leading / trailing rows with absurd values, float32 round trip excluded. Oracle: "
-        "all three daily tables and the summary bitwise equal to the run on the canonical table. One evaluation per pair. "
+        "labels, REPEATED labels as after concatenating yearly tables, one constant label; rows stay in date order), extra leading / trailing rows with absurd values, float32 round trip excluded. Oracles: "
+        "all three daily tables and the summary bitwise equal to the run on the canonical table; AND on every simulated day the "
+        "record handed to the daily solution (observed by a wrapper) is exactly the canonical record carrying that day's date. One evaluation per pair. "
         "Non-trivial pair: the transformation moves at least one required column to another position; distinct = (configuration, "
         "transformation).")
 ASSUMPTIONS = [
@@ -108,13 +111,32 @@ def evaluate(case):
         return note_base_failure(res, info)
     c2 = copy.deepcopy(cfg)
     c2["weather_xform"] = list(cfg.get("weather_xform") or []) + xf
-    out, info2 = run_or_classify(c2)
-    if out is None:
+    from ..observe import outputs_of
+    from .common import exception_of, observe, rows, weather_at
+
+    tr, r2 = observe(c2, capture=("wx",))
+    exc = exception_of(tr)
+    if exc is not None:
+        info2 = sorted(r2.labels)[0] if r2.labels else type(exc).__name__
         res.fail("transformed_raises", "equivalent weather table %s: run raises / is rejected (%s) although the canonical table runs" % (xf, info2))
     else:
-        d = compare_outputs(out, base)
+        d = compare_outputs(outputs_of(tr.model), base)
         if d:
             res.fail("transformed_differs", "equivalent weather table %s changes the results: %s" % (xf, d))
+        # absolute binding: the record handed to each simulated day is the record carrying that day's date
+        idx, n = rows(tr)
+        n = min(n, len(tr.wx))
+        if n:
+            W = weather_at(cfg, tr.date[:n])   # canonical table, by date
+            for i in range(n):
+                used = tr.wx[i]
+                vals = [float(used[0]), float(used[1]), float(used[2]), float(used[3])]
+                if vals != [W[i, 0], W[i, 1], W[i, 2], W[i, 3]] or (used[4] is not None and pd.Timestamp(used[4]) != tr.date[i]):
+                    res.fail("wrong_record_for_date", "step %d simulates %s but is given the weather record (Tmin %.4g, Tmax %.4g, P %.4g, ET0 %.4g, date %s); "
+                             "the record of that date is (%.4g, %.4g, %.4g, %.4g)" % (i, tr.date[i].date(), vals[0], vals[1], vals[2], vals[3], used[4],
+                                                                                       W[i, 0], W[i, 1], W[i, 2], W[i, 3]))
+                    break
+            res.evals = 1
     order = final_column_order(xf)
     canon = ["MinTemp", "MaxTemp", "Precipitation", "ReferenceET", "Date"]
     moved = any(order.index(c) != canon.index(c) for c in canon)
